@@ -453,7 +453,7 @@ func cmdCheck(argv []string) int {
 		}
 		violations++
 		os.MkdirAll(replayDir, 0o755)
-		rp := p.replay(o, replayDir, *repo, *verif)
+		rp := p.replay(o, replayDir, *repo, *verif, workdir)
 		suffix := ""
 		if !rp.Reproduced {
 			suffix = " no-failing-input-found"
